@@ -61,6 +61,7 @@ class C18(World):
     ]
     components_stub = []
     fault_kinds = ["solve_failure"]
+    state_abstraction = "per cycle object (solved?, judged?, regime from independent property calls, last four stream-set requests)"
     rule = (
         "each run = one generated history (3-16 steps) on 1-2 cycle objects: solve(fluid, Te, Tc, dT_sh, dT_sc, eta, Q, ihx_gas_dt=0), "
         "build(cond) / build(evap) / build(both), dtcont / dt_diff_max assignment, metric reads, re-solve with new arguments, deliberately "
